@@ -1,7 +1,7 @@
 SPECIFICATION Spec
 CONSTANTS
   Versions = {"1.0", "1.1"}
-  Conns = {"absent", "close", "Close", "keep-alive", "Keep-Alive", "close, x", "x, close", "x"}
+  Conns = {"absent", "close", "Close", "keep-alive", "Keep-Alive", "close, x", "x, close", "x", "keep-alive, x", "keep-alive, close"}
   Methods = {"GET", "HEAD", "POST"}
   ReqBodies = {"none", "cl", "chunked"}
   Nkas = {FALSE, TRUE}
